@@ -25,21 +25,24 @@ SWEEP_LEMMAS = ['RipTokProofs.tables_ok (all 52 generated parse tables: every fi
                 'BgiProofs.fill_patterns_shape / ega_length / moduli / fillstyle_from_range / screen_size (generated constants: 13 patterns of 8 bytes, 64 EGA colours, colour moduli 16, FillStyle::from lands in 0..=12, window 640x350 <= 1024)']
 TRUSTED = ['Coq 8.16.1 kernel + vm_compute (table sweeps, model evaluation); no axioms (Print Assumptions: closed). Uint63 primitive integers are used ONLY by the canvas hash of Run/RunC20.v (stage C), in no theorem',
            'translator/gen_rip.py + vlib/rustsrc.py: dispatch tables, per-command parse tables, constants; token-for-token pins of parse_base_36 and the nine irregular parse functions',
-           'hand-written Model/RipTok.v, BgiKernel.v, RipStream.v, tied to the source by the differential runs of stage C (state + canvas hashes on streams of modelled commands)',
+           'hand-written Model/RipTok.v, BgiKernel.v, RipStream.v, BgiLine.v, RipStream2.v, IgsTok.v, IgsKernel.v, tied to the source by the differential runs of stage C (state + canvas hashes on streams of modelled commands; the line primitives called directly with arbitrary i32 arguments; IGS picture hashes, error and loop-step counts) and by translator/gen_ripline.py / gen_igs.py (constants, tables, sha-256 token pins of 31 hand-modelled function bodies)',
            'harness/src/c20.rs (stdout redirected while a case runs; icon files written to the temp dir), the worker limits (5 s / 1 GiB), the panic-location -> function map of props/c20.py']
-UNMODELLED = ['every BGI primitive beyond put_pixel / get_pixel / bar / bar_rect: line, rectangle, circle, ellipse, arcs, pie slices, bezier, polygons, flood fill, fonts and text output, buttons, mouse fields, icons, get/put image (search stage only)',
-              'Command::run of FontStyle, LineStyle, Mouse, Button, ButtonStyle, LoadIcon, FileQuery, GetImage, PutImage, CopyRegion and all drawing commands: reaching one is the explicit outcome OUnmodelled',
-              'the wrapped ansi::Parser (a parameter of the stream theorem: any behaviour), TerminalState::set_text_window (terminal margins)',
-              'all of IGS (parser, loops, DrawExecutor): search stage only',
-              'running time: no cost theorem; the search stage enforces 5 s per command under the worker']
+UNMODELLED = ['RIP primitives beyond put_pixel / get_pixel / bar / bar_rect / fill_x / fill_y / line / rectangle / draw_poly / draw_poly_line: circle, ellipse, arcs, pie slices, bezier, filled polygons, flood fill, fonts and text output, buttons, mouse fields, icons, get/put image (search stage only)',
+              'Command::run of FontStyle, Mouse, Button, ButtonStyle, LoadIcon, FileQuery, GetImage, PutImage, CopyRegion, Circle, Oval*, Arc*, PieSlice*, Bezier, FilledPolygon, Fill, Text, TextXY: reaching one is the explicit outcome OUnmodelled2',
+              'the wrapped ansi::Parser of both parsers (a parameter of the stream theorems: any behaviour), TerminalState::set_text_window (terminal margins), Buffer::clear_screen',
+              'IGS: every DrawExecutor command except ColorSet, FilledRectangle, AttributeForFills, ScreenClear, SetResolution, HollowSet, DrawingMode, SetPenColor (with the right parameter count they are the explicit outcome XUnmodelled; the tokenizer theorems hold for EVERY executor); the unchecked `x += p.len() as i32` of the loop parameter count (needs 2^31 parameters)',
+              'running time: cost theorems only for Bgi::line (put_pixel calls), IGS fill_rect (fill_pixel calls <= width x height) and IGS loops (steps <= |to - from| when step >= 1); otherwise the search stage enforces 5 s of CPU per command under the worker']
 ASSUMPTIONS = ['streams shorter than 2^31 characters: parameter_state (i32) overflows in the dev profile after 2^31-1 parameter characters of a single command (theorem pstate_overflow_witness); not reproducible under the 1 GiB worker limit',
                'buf.terminal_state.cleared_screen is never set by the engine (the only assignment in the crate is the reset inside rip print_char), so the graph_defaults prologue of print_char is not modelled',
-               'Rust i32 arithmetic panics on overflow (dev profile); `as u8` / `as usize` / `as u32` truncate or reinterpret as written in the model']
+               'Rust i32 arithmetic panics on overflow (dev profile); `as u8` / `as usize` / `as u32` truncate or reinterpret as written in the model',
+               'IGS: fewer than 2^31 loop parameters (the parameter-count fold `x += p.len() as i32` is modelled unbounded); the loop-step safety theorem assumes loop header and parameter values of at most 10^9 (beyond: known finding igs-panic:next_step)']
 RULE = ('search: every RIP command letter of the three dispatch tables (read from rip/mod.rs) x every parameter string over {0,1,Z} up to length 4 (quick) / 6 (thorough) and the uniform strings up to '
         'length 24, terminated by | and by newline, on a fresh parser and on two prelude states; non-base-36 characters in six positions of every command; ~280 hand-picked special streams '
         '(continuation lines, text variables, unknown commands, plain text, buttons, icons, images, fills); every IGS command letter (igs/cmd.rs) x 0..=12 parameters from '
         '{-50,-1,0,1,7,99,320,640,99999} (uniform + seeded mixed lists), loops, chained commands, ~170 special streams; seeded random sequences of 1..=20 commands on the state left by their predecessors. '
         'correspondence: seeded streams of 1..=20 modelled commands (truncated / over-long / non-digit / continuation-line parameters, line ends, lead-in variants). '
+        'extension: streams of Line / Rectangle / Polygon / PolyLine / LineStyle commands on a small viewport (ripobs2), Bgi::line / rectangle / draw_poly / draw_poly_line called directly with arbitrary i32 arguments (ripline), '
+        'IGS streams over the modelled executor arms with loops, wrong parameter counts, separators and junk (igsobs); search: + nine loop-arithmetic streams and ten loops of known length drained by igsdrain. '
         'non-trivial = stream longer than 3 characters answered without failure; distinct = distinct streams')
 
 # ---------------------------------------------------------------------------------------------------------------
@@ -638,8 +641,8 @@ def zlit(v): return '(%d)' % v
 
 def correspondence_lines(ctx, rng):
     """-> (cases, disagreements, nontrivial set, counters) for the line-family part of stage C"""
-    streams = [d.encode().decode('unicode_escape') for d in DIRECTED_L] + [gen_line_stream(rng) for _ in range(ctx.n(110, 1500))]
-    kc = DIRECTED_RL + [gen_ripline_case(rng) for _ in range(ctx.n(140, 1500))]
+    streams = [d.encode().decode('unicode_escape') for d in DIRECTED_L] + [gen_line_stream(rng) for _ in range(ctx.n(110, 1000))]
+    kc = DIRECTED_RL + [gen_ripline_case(rng) for _ in range(ctx.n(140, 1000))]
     cases = ['ripobs2 ' + hx(s) for s in streams] + ['ripline ' + ' '.join(str(v) for v in c) for c in kc]
     impl = ctx.impl(cases, per_case_timeout=10)
     exprs = ['run_rip2 %s' % to_codes(s) for s in streams] + \
@@ -672,11 +675,14 @@ def gen_igs_model_cmd(rng):
         if big:      # a wide rectangle only one or two rows high, never a tall one: every pixel costs a pass over the canvas list in Coq
             v[rng.choice([0, 2])] = rng.choice(['99999', '2147483647', '4000000000', '319', '320', '639'])
             v[3] = str(min(12, int(v[1]) + rng.choice([0, 0, 1])))
-        elif rng.random() < 0.04: v = [rng.choice(['0', '318']), rng.choice(['0', '190']), rng.choice(['1', '319', '99999']), rng.choice(['199', '200', '99999'])][:4]; v[0], v[2] = ('0', '1') if v[0] == '0' else ('318', v[2])
+        elif rng.random() < 0.04:      # a tall rectangle two pixels wide
+            x0 = rng.choice([0, 318]); v = [str(x0), rng.choice(['0', '190']), str(x0 + 1), rng.choice(['199', '200', '99999'])]
         c = 'Z' + rng.choice(['', ' ']) + ','.join(v)
     elif r < 0.36: c = 'C' + rng.choice(['', ' ']) + rng.choice(['0', '1', '2', '2', '2', '3', '4', '99']) + ',' + rng.choice(['0', '1', '2', '3', '7', '15', '16', '255'])
     elif r < 0.48: c = 'A ' + rng.choice(['0', '1', '2', '2', '3', '3', '4', '5']) + ',' + rng.choice(['0', '1', '5', '6', '7', '12', '13', '24', '25', '99']) + ',' + rng.choice(['0', '1', '1', '2'])
-    elif r < 0.52: c = 's' + rng.choice(['', ' 0', ' 5', ' 1,2'])
+    elif r < 0.50: c = 's' + rng.choice(['', ' 0', ' 5', ' 1,2'])
+    elif r < 0.52: c = rng.choice(['H ' + rng.choice(['0', '1', '2']), 'M ' + rng.choice(['0', '1', '3', '4', '5']),
+                                   'S ' + rng.choice(['0', '1', '2', '15', '16']) + ',' + ','.join(rng.choice(['0', '3', '7', '8', '255', '256']) for _ in range(3))])
     elif r < 0.57: c = 'R ' + rng.choice(['0', '0', '1', '2', '3']) + ',' + rng.choice(['0', '1', '2', '3'])
     elif r < 0.72:
         # a letter with the wrong number of parameters: an error before anything happens
@@ -713,7 +719,7 @@ def gen_igs_model_stream(rng):
     if rng.random() < 0.1: s += rng.choice(['G', 'G#', 'text', 'G#Z 1,2'])
     return s
 
-DIRECTED_I = ['G#C 2,3:Z 0,0,10,5:', 'G#&0,3,1,0,Z,4,x,0,x,5:', 'G#R 1,2:A 2,5,1:Z 3,3,40,9:', 'G#Z 0,0,99999,3:', 'G#Z 99999,99999,318,198:', 'G#Z 4000000000,0,5,5:', 'G#A 3,9,1:C 2,5:Z 1,1,33,9:',
+DIRECTED_I = ['G#S 2,7,0,3:C 2,2:Z 0,0,10,5:', 'G#S 1,7,7,7:', 'G#S 16,1,1,1:', 'G#S 0,255,256,8:Z 0,0,3,3:', 'G#H 1:H 2:M 3:M 0:M 5:', 'G#C 2,3:Z 0,0,10,5:', 'G#&0,3,1,0,Z,4,x,0,x,5:', 'G#R 1,2:A 2,5,1:Z 3,3,40,9:', 'G#Z 0,0,99999,3:', 'G#Z 99999,99999,318,198:', 'G#Z 4000000000,0,5,5:', 'G#A 3,9,1:C 2,5:Z 1,1,33,9:',
               'G#A 2,0,0:C 2,15:Z 0,0,47,12:', 'G#A 2,25,1:Z 0,0,5,5:', 'G#A 3,13,2:Z 0,0,5,5:', 'G#A 5,1,1:', 'G#C 2,16:Z 0,0,5,5:', 'G#C 4,1:', 'G#C 2:', 'G#s:Z 0,0,3,3:', 'G#R 1,0:Z 600,0,700,3:', 'G#R 0,3:', 'G#R 2,0:',
               'G#R 1,1:R 0,0:Z 0,0,5,5:', 'G#W 1,2,abc\nG#C 2,3:Z 0,0,5,5:', 'G#&0,3,1,0,C,2,2,x:Z 0,0,9,2:', 'G#&5,0,2,0,Z,4,x,0,x,y:', 'G#&0,0,1,0,Z,4,0,0,1,1:', 'G#&0,3,1,0,~,4,0,0,1,1:', 'G#&0,3,1,0,Z,0,:',
               'G#&0,6,1,0,Z,8,0,0,x,1:0,3,x,4:', 'G#&0,3,1,0,Z,4,q,0,1,1:', 'G#&0,3,1,0,Z,4,+x,-y,!2,y:', 'G#&0,3,1,5,Z,4,0,0,1,1:', 'G#&0,3,1,0,Z|4,0,0,1,1:', 'G#&0,3,1,0,Z,4,0,0,\n1,1:', 'G#&0,3,1,0,Z,x',
@@ -721,7 +727,7 @@ DIRECTED_I = ['G#C 2,3:Z 0,0,10,5:', 'G#&0,3,1,0,Z,4,x,0,x,5:', 'G#R 1,2:A 2,5,1
               'G#Z 0 , 0 , 5 , 5 :', 'G#Z>0,0,5,5:', 'G#Z 0,0,_\n5,5:', 'G#Z 0,0,5,5:\nG#C 2,4:Z 6,0,9,3:', 'G#Z 0,0,5,5:\n\nG#C 2,4:', 'G#Z 0,0,5,5:\rG#C 2,4:', 'G#Z 0,0,5,5:x', 'G#Z -1,0,5,5:', 'G#Z 0,,5:', 'G#Z ,:', 'G#:']
 
 def correspondence_igs(ctx, rng):
-    streams = [d.encode().decode('unicode_escape') for d in DIRECTED_I] + [gen_igs_model_stream(rng).encode().decode('unicode_escape') for _ in range(ctx.n(160, 2000))]
+    streams = [d.encode().decode('unicode_escape') for d in DIRECTED_I] + [gen_igs_model_stream(rng).encode().decode('unicode_escape') for _ in range(ctx.n(160, 1200))]
     cases = ['igsobs ' + hx(s) for s in streams]
     impl = ctx.impl(cases, per_case_timeout=10)
     model = model_parallel(ctx, 'From IE Require Import Run.RunC20.\nLocal Open Scope Z_scope.', ['run_igs %s' % to_codes(s) for s in streams])
@@ -831,15 +837,21 @@ def replay(ctx, body):
     print('oracle: ok')
     return 0
 
-LEVEL_TEXT = ('PARTIAL by design. Machine-checked proof (Coq, closed under the global context) for the RIPscrip tokenizer and a BGI kernel: (a) model of rip::Parser::print_char '
-              '(all six states, !| lead-in, levels 0/1/9, continuation lines, text variables) and of Command::parse of all 52 commands, whose dispatch and parse tables are re-extracted from '
-              'rip/mod.rs and commands.rs on every run; theorems: no character of any stream reaches a panic site of the tokenizer (unwrap of the command, pop().unwrap(), i32 arithmetic), the parameter '
-              'index stays below the arity, every field stays below 36^(digits read), two line feeds always resynchronise; (b) model of put_pixel / bar / bar_rect / viewport / palette / fill state with checked '
-              'indexing and checked i32 arithmetic; theorem kernel_safe: every modelled command (TextWindow, ViewPort, ResetWindows, EraseWindow, EraseView, GotoXY, Color, SetPalette, OnePalette, WriteMode, Move, '
-              'Pixel, Bar, FillStyle, FillPattern + 12 no-op commands) with ANY parameters in 0..=65535 on any state satisfying the invariant returns normally and keeps the canvas at width x height bytes; lifted by '
-              'induction to every command sequence and to every character stream of the whole parser, for every behaviour of the wrapped ansi parser. NOT proved: lines, ovals, polygons, flood fill, fonts, buttons, '
-              'icons, images and all of IGS — these are covered only by the search stage, which runs the complete RIP and IGS command tables (every letter x parameter lengths 0..=24 over {0,1,Z}; 0..=12 IGS values) '
-              'and random sequences against the real code under 5 s / 1 GiB limits; 17 defects found this way are fixed by fix: commits, 7 failure classes remain as known findings.')
+LEVEL_TEXT = ('PARTIAL by design. Machine-checked proof (Coq, closed under the global context) for the RIPscrip tokenizer, a BGI kernel with its line family, the IGS tokenizer and an IGS pixel kernel: '
+              '(a) model of rip::Parser::print_char (all six states, !| lead-in, levels 0/1/9, continuation lines, text variables) and of Command::parse of all 52 commands, dispatch and parse tables re-extracted from '
+              'rip/mod.rs and commands.rs on every run; theorems: no character of any stream reaches a panic site of the tokenizer, the parameter index stays below the arity, every field stays below 36^(digits read), '
+              'palette / polygon vectors hold numbers below 1296, two line feeds always resynchronise; (b) model of put_pixel / bar / bar_rect / viewport / palette / fill state and of the run-slice line family '
+              '(fill_x, fill_y, line, rectangle, draw_poly, draw_poly_line, line style / pattern / thickness) with checked indexing and checked i32 arithmetic; theorems kernel_safe / kernel2_safe: every modelled command '
+              '(TextWindow, ViewPort, ResetWindows, EraseWindow, EraseView, GotoXY, Color, SetPalette, OnePalette, WriteMode, Move, Pixel, Bar, FillStyle, FillPattern, Line, Rectangle, Polygon, PolyLine, LineStyle + 12 no-op commands) '
+              'with ANY parameters in 0..=65535 on any state satisfying the invariant returns normally and keeps the canvas at width x height bytes; Bgi::line is proved over an abstract canvas: every pixel is plotted through the checked '
+              'put_pixel AFTER clipping to the viewport and at most (3(|dx|+|dy|)+8)*thickness pixels are plotted; lifted by induction to every command sequence and to every character stream of the whole parser, for every behaviour '
+              'of the wrapped ansi parser; (c) character-level model of the IGS tokenizer (states, saturating decimal accumulation, & loops with their header, `:` chaining, `@` text, line continuation, Loop::next_step) with command execution '
+              'and the fallback parser as parameters; theorem igs_tokenizer_safe / igs_stream_safe: for every executor, every interleaving of characters and get_next_action calls, parsed_numbers[0..=4], the loop_parameters unwraps, '
+              '`% len`, the parameter index never fail and the loop delay sleep never sleeps; the ONLY panic class is the i32 arithmetic of Loop::next_step (known finding, witness theorems; proved absent for headers / values up to 10^9); '
+              'loops with step >= 1 end after at most |to-from| steps, step 0 never ends (known finding); (d) IGS set_pixel / get_pixel / fill_pixel / fill_rect and the executor arms ColorSet, FilledRectangle, AttributeForFills, '
+              'ScreenClear, SetResolution, HollowSet, DrawingMode, SetPenColor are safe for ALL parameter values, fill_rect does at most width x height pixel calls, get_picture_data indexes the pen table in range; igs_stream_kernel_safe joins (c) and (d). '
+              'NOT proved: ovals, arcs, bezier, filled polygons, flood fill, fonts, buttons, icons, images and the other IGS drawing commands — covered only by the search stage, which runs the complete RIP and IGS command tables '
+              '(every letter x parameter lengths 0..=24 over {0,1,Z}; 0..=12 IGS values) and random sequences against the real code under 5 s / 1 GiB limits; 17 defects found this way are fixed by fix: commits, 9 failure classes remain as known findings.')
 LEVEL_NOTE = ('Trusted: Coq kernel + vm_compute; the python translator (tables, constants, token pins); hand-written tokenizer / kernel models tied by differential runs (state and canvas hashes); '
-              'the harness and worker limits. Assumes streams shorter than 2^31 characters (parameter_state overflow witness is a theorem). No axioms.')
-TECHNIQUE = 'Coq proof: invariants by induction over character streams and command sequences, complete vm_compute sweeps of the regenerated command tables; exhaustive + random search of the full command tables in sandboxed workers'
+              'the harness and worker limits. Assumes streams shorter than 2^31 characters (parameter_state overflow witness is a theorem) and fewer than 2^31 IGS loop parameters. No axioms.')
+TECHNIQUE = 'Coq proof: invariants by induction over character streams, event sequences and command sequences, an abstract-canvas (parametric) proof of the run-slice line with a cost measure, complete vm_compute sweeps of the regenerated command tables; exhaustive + random search of the full command tables in sandboxed workers'
